@@ -194,9 +194,82 @@ def make_history(first_kinds, k, last_kinds=("diff", "merge"), lo=0, hi=None, pr
     return h, dict(reset=None, shadow_every=shadow_every)
 
 
+def reuse_pair(variant):
+    """A = [X]; B = [Y1, Y2] with both sources approximately similar to X's;
+    Y1's outputs are similar to X's, Y2's are not (variant 0), or the other
+    way round (variant 1), or B has a single cell (variant 2)."""
+    import nbformat
+
+    def cell(src, text):
+        return {"cell_type": "code", "execution_count": 1, "metadata": {}, "source": src,
+                "outputs": [{"output_type": "stream", "name": "stdout", "text": text}]}
+    base_src = G.SRC["A"][0]
+    near = "x = 1\ny = 2\nw = 99\nz = 3\n"          # similarity ~0.83: neither strict nor dissimilar
+    near2 = "x = 1\nv = 77\ny = 2\nz = 3\n"
+    t0, t_sim, t_far = G.STREAM[0], G.STREAM[1], "entirely different output, nothing in common at all\n"
+    A = {"nbformat": 4, "nbformat_minor": 4, "metadata": {}, "cells": [cell(base_src, t0)]}
+    if variant == 0:
+        cells = [cell(near, t_sim), cell(near2, t_far)]
+    elif variant == 1:
+        cells = [cell(near, t_far), cell(near2, t_sim)]
+    else:
+        cells = [cell(near, t_far)]
+    B = {"nbformat": 4, "nbformat_minor": 4, "metadata": {}, "cells": cells}
+    return nbformat.from_dict(A), nbformat.from_dict(B)
+
+
+def make_reuse(props=("C12",), known=()):
+    """The same notebook *objects* are diffed twice in one process, with an
+    ignore configuration in force the first time and none the second time
+    (or the other way round).  The second result must equal what a pristine
+    nbdime returns for it."""
+    cfg_ops = [("cfg", i, 0) for i in range(len(CONFIGS))] + [("ign", i, 0) for i in range(len(IGNORES))]
+
+    def h(E):
+        variant = E.choice("pair", 3)
+        first = cfg_ops[E.choice("first", len(cfg_ops))]
+        undo = (("reset", 0, 0), ("cfg", 3, 0))[E.choice("undo", 2)]
+        order = E.choice("order", 2)           # 0: configured diff first, 1: plain diff first then configured
+        A, B = reuse_pair(variant)
+
+        def do(op):
+            return run_op(E, op, "x", {}, symbolic=False)
+        fresh_nbdime()
+        from nbdime.diffing import notebooks as nbs      # the freshly imported module set
+        try:
+            if order == 0:
+                do(first)
+                nbs.diff_notebooks(A, B)
+                do(undo)
+                full = ("ok", nbs.diff_notebooks(A, B))
+            else:
+                nbs.diff_notebooks(A, B)
+                do(first)
+                full = ("ok", nbs.diff_notebooks(A, B))
+        except Exception as ex:  # noqa
+            full = ("raised", "%s: %s" % (type(ex).__name__, str(ex)[:160]))
+        fresh_nbdime()
+        from nbdime.diffing import notebooks as nbs2
+        try:
+            if order == 1 and (first[0] != "cfg" or CONFIGS[first[1]]):
+                run_op(E, first, "x", {}, symbolic=False)
+            prist = ("ok", nbs2.diff_notebooks(A, B))
+        except Exception as ex:  # noqa
+            prist = ("raised", "%s: %s" % (type(ex).__name__, str(ex)[:160]))
+        E.nontrivial(True)
+        E.goal("same-objects-diffed-twice")
+        info = "pair variant %d, first %r, undo %r, order %d; history %s pristine %s" % (
+            variant, first, undo, order, full if full[0] == "raised" else "ok", prist if prist[0] == "raised" else "ok")
+        E.check("same-outcome-kind-as-pristine", full[0] == prist[0], info=info)
+        if full[0] == "ok" and prist[0] == "ok":
+            E.check("second-diff-of-the-same-objects==pristine", json_identical(full[1], prist[1]), info=info)
+    return h, dict(reset=None, shadow_every=5)
+
+
 def shards(tier, props, known):
     kw = dict(props=tuple(props), known=tuple(known))
-    out = [("make_history", "hist1", dict(first_kinds=("diff",), k=1, **kw))]
+    out = [("make_history", "hist1", dict(first_kinds=("diff",), k=1, **kw)),
+           ("make_reuse", "reuse", dict(**kw))]
     allk = ("diff", "merge", "gdiff", "cfg")
     n = len(op_space(allk))
     step = 8
